@@ -429,7 +429,12 @@ impl DocumentInline {
             DocumentInline::SoftBreak(_) => GraphInline::SoftBreak,
             DocumentInline::LineBreak(_) => GraphInline::LineBreak,
             DocumentInline::Link(link) => GraphInline::Link(
-                link.target.url.clone(), // relative path
+                if model::is_ref_url(&link.target.url) {
+                    // the configured extension is added back when the link is written
+                    link.target.url.trim_end_matches(".md").to_string()
+                } else {
+                    link.target.url.clone()
+                },
                 link.target.title.clone(),
                 link.link_type,
                 link.inlines
